@@ -7,6 +7,13 @@ from props.walklib import hx, unhx
 
 def mixed_stack(rng, vocab, dirs):
     """2-3 layers mixing negations and entry filters, file and tree verdicts"""
+    if dirs and rng.random() < 0.3:
+        # a directory discarded as a FILE upstream reaches a negation whose exhaustive branch matches it (as residue)
+        d = walkgen.esc(rng.choice(dirs)[-1])
+        neg = rng.choice(["{**/%s/**,**/*.md}" % d, "{%s/**,*.txt}" % d, "**/%s/**" % d])
+        layers = ["f:%s=F" % hx(rng.choice(dirs)[-1] if rng.random() < 0.2 else [x for x in dirs if walkgen.esc(x[-1]) == d][0][-1]), "n:" + hx(neg), "f:"]
+        rng.shuffle(layers)
+        return ";".join(layers), "fnf*", []
     n = rng.choice([2, 2, 3])
     layers, shape = [], ""
     for _ in range(n):
